@@ -9,18 +9,19 @@ import (
 )
 
 // value is one of:
-//   *Term                 bool, integers (bit-vectors)
-//   float64               floats (concrete only)
-//   str                   strings: concrete length, bytes are terms (or fully concrete)
-//   structure             struct values
-//   array                 array values
-//   slice                 slices: window onto an array stored in an object
-//   pointer               pointer to (a part of) an object
-//   iface                 interface value with a concrete dynamic type
-//   *mapObj               maps
-//   *closure, *ssa.Function, *ssa.Builtin   functions
-//   tuple                 multi-value results
-//   *iterator             range iterators
+//
+//	*Term                 bool, integers (bit-vectors)
+//	float64               floats (concrete only)
+//	str                   strings: concrete length, bytes are terms (or fully concrete)
+//	structure             struct values
+//	array                 array values
+//	slice                 slices: window onto an array stored in an object
+//	pointer               pointer to (a part of) an object
+//	iface                 interface value with a concrete dynamic type
+//	*mapObj               maps
+//	*closure, *ssa.Function, *ssa.Builtin   functions
+//	tuple                 multi-value results
+//	*iterator             range iterators
 type value interface{}
 
 type str struct {
